@@ -452,10 +452,28 @@ def stateCore (focus : String) (c : Case) : Acc × String := Id.run do
           | none, none => pure ()
           | none, some _ => if !absentOk then acc := { acc with mon := acc.mon.push s!"step{si}:{pre}-jac-presence" }
           | _, _ => acc := { acc with mon := acc.mon.push s!"step{si}:{pre}-jac-presence" }
+      -- a clone of the problem moved elsewhere = a fresh problem there
+      if (step.obs.find? (·.1 == "clone")).isSome && (step.obs.find? (·.1 == "cfresh")).isSome then
+        let a := step.get "clone"; let b := step.get "cfresh"
+        match a.res, b.res with
+        | some (some x), some (some y) => acc := acc.addMon (cmpBits s!"step{si}:clone-res-vs-fresh" x y)
+        | some none, some none => pure ()
+        | some _, some _ => acc := { acc with mon := acc.mon.push s!"step{si}:clone-res-presence" }
+        | _, _ => pure ()
+        match a.coef, b.coef with
+        | some (some x), some (some y) => acc := acc.addMon (cmpBits s!"step{si}:clone-coef-vs-fresh" x.a y.a)
+        | some none, some none => pure ()
+        | some _, some _ => acc := { acc with mon := acc.mon.push s!"step{si}:clone-coef-presence" }
+        | _, _ => pure ()
+        match a.jac, b.jac with
+        | some (some x), some (some y) => acc := acc.addMon (cmpBits s!"step{si}:clone-jac-vs-fresh" x.a y.a)
+        | some none, some none => pure ()
+        | some _, some _ => acc := { acc with mon := acc.mon.push s!"step{si}:clone-jac-presence" }
+        | _, _ => pure ()
     -- --- C06 / C11 twins: whole outputs must agree (same arithmetic on both sides)
     let twinList : List String :=
       (if wants focus "wtwins" then ["twinW", "twinU", "twinZ"] else []) ++
-      (if wants focus "ptwins" then ["twinSeq", "twinInto"] else [])
+      (if wants focus "ptwins" then ["twinSeq", "twinInto", "twinIntoPar"] else [])
     for pre in twinList do
       if (step.obs.find? (·.1 == pre)).isSome then
         let t := step.get pre
